@@ -214,21 +214,43 @@ def flagged_fn(a: types.PositiveInt, b: List[int] = None, *rest: int, k: Optiona
     return a
 
 
+@utype.parse(options=Options(collect_errors=True))
+def flagged_fn_collect(a: types.PositiveInt, b: List[int] = None, *rest: int, k: Optional[str] = None, **kw: int) -> types.PositiveInt:
+    ENTERED.append('body')
+    return a
+
+
+class FlaggedAdd(Schema):
+    __options__ = Options(collect_errors=True, addition=int)
+    a: types.PositiveInt
+    b: List[int] = Field(default_factory=list)
+
+    def __validate__(self):
+        ENTERED.append('validate')
+
+
 @ob('no-entry-on-failure', marks=['accept', 'reject'], budget=(60, 300), exhaustive=False,
     bounds='Schema with __validate__ and @parse function (a: PositiveInt, b: List[int], *rest: int, k: Optional[str], '
-           '**kw: int) -> PositiveInt, arguments from the totality value generator: when the call fails because of a '
+           '**kw: int) -> PositiveInt (also under collect_errors, and a Schema with addition=int), arguments from the totality value generator: when the call fails because of a '
            'parameter the body / __validate__ has not run, and nothing but ParseError escapes')
 def no_entry(V):
-    which = V.pick('target', ['schema', 'function'])
+    which = V.pick('target', ['schema', 'function', 'schema-collect-addition', 'function-collect'])
     a = atom(V, 'a')
     del ENTERED[:]
     kwargs = {}
     if V.bool('has_b'):
         kwargs['b'] = V.pick('b', [[1], ['x'], 'x', None, [[1]], '1,2', {1}, 5])
-    if which == 'schema':
-        r = call_checked(V, 'Flagged', Flagged, a=a, **kwargs)
+    if which.startswith('schema'):
+        cls = Flagged if which == 'schema' else FlaggedAdd
+        bad_extra = False
+        if cls is FlaggedAdd and V.bool('has_extra'):
+            kwargs['zz'] = V.pick('zz', [1, '5', 'x', None, ['x', 'y']])
+            bad_extra = kwargs['zz'] in ('x', ['x', 'y'])
+        r = call_checked(V, cls.__name__, cls, a=a, **kwargs)
         if r[0] == 'err':
-            V.check(not ENTERED, 'entry:validate-ran-on-failure', lambda: 'Flagged(a=%r, **%r) failed but __validate__ ran' % (a, kwargs))
+            V.check(not ENTERED, 'entry:validate-ran-on-failure', lambda: '%s(a=%r, **%r) failed but __validate__ ran' % (cls.__name__, a, kwargs))
+        elif bad_extra:
+            V.fail('entry:instance-created-with-invalid-extra', '%s(a=%r, **%r) -> %r' % (cls.__name__, a, kwargs, dict(r[1])))
         return
     rest = []
     if 'b' in kwargs and V.bool('has_rest'):
@@ -238,11 +260,16 @@ def no_entry(V):
         args = (a,)
     if V.bool('has_k'):
         kwargs['k'] = V.pick('k', ['s', 5, None, ['x'], object])
+    bad_extra = False
     if V.bool('has_extra'):
-        kwargs['zz'] = V.pick('zz', [1, 'x', None])
-    r = call_checked(V, 'flagged_fn', flagged_fn, *args, **kwargs)
+        kwargs['zz'] = V.pick('zz', [1, 'x', None, ['x', 'y']])
+        bad_extra = kwargs['zz'] in ('x', ['x', 'y'])
+    fn = flagged_fn if which == 'function' else flagged_fn_collect
+    r = call_checked(V, fn.__name__, fn, *args, **kwargs)
     if r[0] == 'err':
-        V.check(not ENTERED, 'entry:body-ran-on-failure', lambda: 'flagged_fn(*%r, **%r) failed but the body ran' % (args, kwargs))
+        V.check(not ENTERED, 'entry:body-ran-on-failure', lambda: '%s(*%r, **%r) failed but the body ran' % (fn.__name__, args, kwargs))
+    elif bad_extra:
+        V.fail('entry:body-ran-with-invalid-extra', '%s(*%r, **%r) ran its body (returned %r)' % (fn.__name__, args, kwargs, r[1]))
 
 
 # ------------------------------------------------------------------ termination of the numeric normalisation loops
